@@ -204,9 +204,12 @@ PROPS = {
             ('pubsub', r'^(PubSocketBackend|XPubSocketBackend)::message_received$', A, None),
             ('pubsub', r'^(PubSocketBackend|XPubSocketBackend)::peer_disconnected$', A, None),
             ('pubsub', r'^ZmqMessage::into_vec$', A, None),
+            # XPUB hands the subscription message to the application verbatim, after applying it to the table
+            ('pubsub', r'^XPubSocket::recv$', A, None),
         ],
         'kani': {},
         'assumptions': [
+            'FairQueue::next yields ANY (peer, item) pair, logged (stand-in; the real queue is under contract in unit fairqueue): XPubSocket::recv returns the first message item verbatim and applies exactly that item (a clone with the same frames) to the sender\'s entry',
             'scc traversal (begin_async / next_async / OccupiedEntry Deref, DerefMut, key) is a stand-in cursor: it visits every key of the table exactly once in an order of its choosing, a change through the entry is a change of the table at that key, and the table afterwards is what the entries left (prophecy of the borrow). ASSUMED, sequential scope: nobody else touches the table during the traversal',
             '`subscriber.send_queue.as_mut().try_send(item)` is an assumed expression (Pin / TrySend over the external FramedWrite): one call hands exactly this item to exactly this writer, whatever the result; "delivered" below means handed to the connection\'s writer - whether the writer accepts or drops it at the high-water mark is C12',
             '`e.kind() == ErrorKind::BrokenPipe` is an assumed pure test (std::io::Error is external)',
@@ -214,7 +217,7 @@ PROPS = {
             'ZmqMessage::clone is written out (derive dropped, D3) and verified to keep the frames',
             'send requires a message with at least one frame (an empty ZmqMessage makes `message.get(0).unwrap()` panic; ZmqMessage constructors never build one, split_off(0) can)',
         ],
-        'not_covered': ['that subscription messages of one peer are processed in per-connection order, and the race between the PUB reader task and send (concurrency)', 'XPUB handing every subscription message to the application verbatim (XPubSocket::recv is under contract in unit routing for C14 only)', 'what happens on the Err path of send (a fatal writer error aborts the traversal: subscribers not yet visited get nothing)'],
+        'not_covered': ['that subscription messages of one peer are processed in per-connection order, and the race between the PUB reader task and send (concurrency)', 'per-peer ORDER of the subscription messages XPUB hands to the application (that is the fair queue / decoder: C05, C02)', 'what happens on the Err path of send (a fatal writer error aborts the traversal: subscribers not yet visited get nothing)'],
     },
     'C13': {
         'units': ['sub'],
